@@ -20,6 +20,7 @@ func checkC16(p *Prog, r *Report) {
 	c16Harvest(p, r)
 	c16Irrigation(p, r)
 	c16AutoN(p, r)
+	c16TableRow(p, r)
 }
 
 func nonLoopGuardKeys(e *Event) []string {
@@ -389,4 +390,74 @@ func c16AutoN(p *Prog, r *Report) {
 		r.Ob("counter:"+shortRoot(e.Root), p.Pos(e.Pos), ok, fmt.Sprintf("Δ%s = %s in the automatic arm", shortRoot(e.Root), clip(d.String(), 120)))
 	}
 	sort.Strings(keys)
+}
+
+// c16TableRow: the automatic-management table row of a rotation entry is the
+// row of that entry's own crop: every store that copies a column of the table
+// into a per-entry array is guarded by the equality of the row's crop code
+// (converted with the same crop-type lookup) with the entry's crop.
+func c16TableRow(p *Prog, r *Report) {
+	r.Rule("C16.R6", "automatic-management table lookup: every per-entry value taken from a table row is stored under the guard ToCropType(row's crop code) == FRUCHT[that entry] (exact match; a prefix or substring test can select the row of another crop and with it that crop's sowing window, latest harvest date and irrigation settings)", 20)
+	x := walked(p, "hermes.Input")
+	if x == nil {
+		return
+	}
+	n, bad := 0, 0
+	seen := map[string]bool{}
+	for _, e := range x.Events {
+		if e.Kind != "assign" || !strings.HasPrefix(e.Root, "GlobalVarsMain.") && !strings.HasPrefix(e.Root, "InputSharedVars.") || len(e.Idx) != 1 {
+			continue
+		}
+		fromRow := false
+		e.Val.walkAtoms(func(a *Atom) {
+			if strings.Contains(a.Key, "‹crpman[") || strings.Contains(a.Key, "crpman[") {
+				fromRow = true
+			}
+		})
+		if !fromRow {
+			continue
+		}
+		n++
+		slot := stripVersions(e.Idx[0])
+		// the entry's crop: the cell FRUCHT[slot] or the value stored into it earlier in this iteration (forwarded)
+		crop := []Poly{cellP("GlobalVarsMain.FRUCHT", slot)}
+		for _, f := range x.Events {
+			if f.Kind == "assign" && f.Root == "GlobalVarsMain.FRUCHT" && f.Seq < e.Seq && len(f.Idx) == 1 && stripVersions(f.Idx[0]).Equal(slot) {
+				crop = append(crop, f.Val)
+			}
+		}
+		ok := e.HasGuard(func(c *Cond) bool {
+			if c.Kind != "cmp" || c.Op != token.EQL {
+				return false
+			}
+			ts := c.P.sortedTerms()
+			if len(ts) != 2 || len(ts[0].M) != 1 || len(ts[1].M) != 1 {
+				return false
+			}
+			for i := 0; i < 2; i++ {
+				rowT, cropT := ts[i], ts[1-i]
+				if !strings.Contains(rowT.M[0].A.Key, "ToCropType") {
+					continue
+				}
+				for _, cp := range crop {
+					if ct := cp.single(); ct != nil && len(ct.M) == 1 && (ct.M[0].A == cropT.M[0].A || stripVersions(PAtom(ct.M[0].A)).Equal(stripVersions(PAtom(cropT.M[0].A)))) && rowT.M[0].A != cropT.M[0].A {
+						return true
+					}
+				}
+			}
+			return false
+		})
+		key := shortRoot(e.Root)
+		if !ok {
+			bad++
+		}
+		if seen[key] && ok {
+			continue
+		}
+		seen[key] = true
+		r.Ob("row:"+key, p.Pos(e.Pos), ok, fmt.Sprintf("%s[entry] is taken from the table row selected by exact crop-code equality with FRUCHT[entry]: %v", key, ok))
+	}
+	if n == 0 {
+		r.Ob("row", "-", false, "no store from the automatic-management table found")
+	}
 }
